@@ -533,12 +533,10 @@ MIdle(w) ==
             OpEnd([w EXCEPT !.subs = Append(@, o.s),
                             !.h.mustSee[o.s] = Acts \ w.h.sawOpen, !.h.registered = @ \cup {o.s}, !.h.regs[o.s] = @ + 1,
                             !.h.lateReg = IF w.h.cleared THEN @ \cup {o.s} ELSE @], "ok")
-      [] o.op = "subscribed" ->  \* store_impl.rs:610-647: channel, thread, then add_subscriber
-            OpEnd([w EXCEPT !.subs = Append(@, o.s),
-                            !.chan[o.s].open = TRUE, !.chan[o.s].alive = TRUE,
-                            !.pc[ChName(o.s)] = "ch.new",
-                            !.h.mustSee[o.s] = Acts \ w.h.sawOpen, !.h.registered = @ \cup {o.s}, !.h.regs[o.s] = @ + 1,
-                            !.h.lateReg = IF w.h.cleared THEN @ \cup {o.s} ELSE @], "ok")
+      [] o.op = "subscribed" ->  \* subscribed_with: the channel and its delivery thread first - the thread
+                                 \* runs from here on, before the subscriber is registered ("sub.reg")
+            Park([w EXCEPT !.chan[o.s].open = TRUE, !.chan[o.s].alive = TRUE, !.pc[ChName(o.s)] = "ch.new"],
+                 "sub.reg", "sub.spawned", [ch |-> o.s])
       [] o.op = "iter" ->        \* store_impl.rs:564-587
             OpEnd([w EXCEPT !.subs = Append(@, o.s),
                             !.chan[o.s].open = TRUE, !.chan[o.s].alive = TRUE,
@@ -565,6 +563,12 @@ MIdle(w) ==
       [] o.op = "wait" -> OpEnd(w, "ok")                                      \* (guard: the signal is up)
       [] o.op = "task" -> OpEnd(Submit(w, "task", 0), "ok")                            \* dispatcher.rs:60-73
       [] o.op = "thunk" -> OpEnd(Submit(w, "thunk", o.a), "ok")                        \* dispatcher.rs:42-58
+
+MSubReg(w) ==                \* pc "sub.reg": subscribed_with's add_subscriber (guard: subscribers lock free)
+    LET o == CurOp(w) IN
+    OpEnd([w EXCEPT !.subs = Append(@, o.s),
+                    !.h.mustSee[o.s] = Acts \ w.h.sawOpen, !.h.registered = @ \cup {o.s}, !.h.regs[o.s] = @ + 1,
+                    !.h.lateReg = IF w.h.cleared THEN @ \cup {o.s} ELSE @], "ok")
 
 MIterEnd(w) ==               \* iterator.rs:99-107 (guard: subscribers lock free)
     LET s == L(w).us IN
@@ -643,6 +647,7 @@ Micro(w) ==
       [] p = "stop.drain" -> Park(w, "stop.pool", "stop.pool", 0)      \* pool.join_timeout returned (guard: idle)
       [] p = "stop.pool" -> MStopPool(w)
       [] p = "join"      -> MJoin(w)
+      [] p = "sub.reg"   -> MSubReg(w)
       [] p = "iter.end"  -> MIterEnd(w)
       [] p = "iter.drop" -> MIterDrop(w)
       [] p = "uns.done"  -> MUnsDone(w)
@@ -712,7 +717,7 @@ CanLeave(t) ==
             /\ t \in Clients /\ l.ip <= Len(prog[t])
             /\ LET o == prog[t][l.ip] IN
                CASE o.op \in {"dispatch", "close", "stop", "drop_store"} -> lk["tx"] = "-"
-                 [] o.op \in {"add_sub", "subscribed", "iter", "unsub"} -> lk["subs"] = "-"
+                 [] o.op \in {"add_sub", "iter", "unsub"} -> lk["subs"] = "-"
                  [] o.op = "next" -> chan[o.s].rx => chan[o.s].q # <<>>
                  [] o.op = "wait" -> o.s \in sig
                  [] o.op = "add_reducer" -> lk["reds"] = "-"
@@ -720,7 +725,7 @@ CanLeave(t) ==
                  [] OTHER -> TRUE
       [] p = "send" -> ChanPol(l.ch) = "block" /\ ~RxGone(chan, l.ch) => Len(chan[l.ch].q) < ChanCap(l.ch)
       [] p \in {"join", "stop.drain"} -> PoolIdle
-      [] p \in {"iter.end", "iter.drop"} -> lk["subs"] = "-"
+      [] p \in {"iter.end", "iter.drop", "sub.reg"} -> lk["subs"] = "-"
       [] p = "ctxdrop" -> lk[CtxLock(l.us)] = "-"
       [] p = "chjoin" -> pc[ChName(l.us)] = "exited"
       [] p = "recv" -> chan["D"].q # <<>> \/ ~chan["D"].alive
